@@ -54,7 +54,7 @@ func genC02(r *rand.Rand, t *Trace, thorough bool) {
 	for kind := 0; kind < 4; kind++ {
 		for it := 0; it < per; it++ {
 			p, ntrain := rndParams(r, kind, thorough)
-			o := vecHistOpts{nops: 6 + r.Intn(30), trainFirst: it%8 != 0, ntrain: ntrain}
+			o := vecHistOpts{nops: 6 + r.Intn(30), trainFirst: it%8 != 0, ntrain: ntrain, allowReuse: it%2 == 1}
 			c := runVecHistory(r, p, o, t)
 			t.Emit(c, "kind."+names[kind], "metric."+string(metrics[p.metric]))
 		}
@@ -77,7 +77,7 @@ func genC13(r *rand.Rand, t *Trace, thorough bool) {
 		if thorough && it%25 == 0 {
 			ntrain = p.nlist + r.Intn(500-p.nlist)
 		}
-		o := vecHistOpts{nops: 8 + r.Intn(30), trainFirst: it%10 != 0, ntrain: ntrain}
+		o := vecHistOpts{nops: 8 + r.Intn(30), trainFirst: it%10 != 0, ntrain: ntrain, allowReuse: it%3 == 1}
 		c := runVecHistory(r, p, o, t)
 		t.Emit(c, "ivf.metric."+string(metrics[p.metric]))
 	}
@@ -96,7 +96,7 @@ func genC14(r *rand.Rand, t *Trace, thorough bool) {
 				p.dim = []int{4, 8, 16}[r.Intn(3)]
 				p.m = pickM(r, p.dim)
 			}
-			o := vecHistOpts{nops: 8 + r.Intn(30), trainFirst: it%10 != 0, ntrain: ntrain}
+			o := vecHistOpts{nops: 8 + r.Intn(30), trainFirst: it%10 != 0, ntrain: ntrain, allowReuse: it%3 == 1}
 			c := runVecHistory(r, p, o, t)
 			t.Emit(c, []string{"", "", "pq", "ivfpq"}[kind]+".metric."+string(metrics[p.metric]))
 		}
